@@ -109,7 +109,7 @@ class Canon:
 
     def t(self, e: ast.AST):
         k = self._t(e)
-        return k
+        return alpha_norm(k)
 
     # ------------------------------------------------------------------
     def _t(self, e):
@@ -175,7 +175,7 @@ class Canon:
                     parts.extend(tv[1])
                 else:
                     parts.append(tv)
-            return (op, tuple(sorted(parts, key=repr)))
+            return (op, tuple(sorted(parts, key=_skey)))
         if isinstance(e, ast.Compare):
             parts = []
             left = self._t(e.left)
@@ -183,7 +183,7 @@ class Canon:
                 right = self._t(comp)
                 parts.append(self._cmp(CMPOPS[type(op)], left, right))
                 left = right
-            return parts[0] if len(parts) == 1 else ('and', tuple(sorted(parts, key=repr)))
+            return parts[0] if len(parts) == 1 else ('and', tuple(sorted(parts, key=_skey)))
         if isinstance(e, ast.Call):
             return self._call(e)
         if isinstance(e, ast.Subscript):
@@ -205,7 +205,7 @@ class Canon:
         if isinstance(e, ast.List):
             return ('list',) + tuple(self._t(x) for x in e.elts)
         if isinstance(e, ast.Set):
-            return ('set', tuple(sorted((self._t(x) for x in e.elts), key=repr)))
+            return ('set', tuple(sorted((self._t(x) for x in e.elts), key=_skey)))
         if isinstance(e, ast.Dict):
             return ('dict', tuple((self._t(k) if k is not None else ('splat',), self._t(v)) for k, v in zip(e.keys, e.values)))
         if isinstance(e, ast.IfExp):
@@ -221,6 +221,7 @@ class Canon:
         if isinstance(e, ast.Lambda):
             names = [a.arg for a in e.args.args]
             sub = Canon(self.m, self.scope, self.inline, {**self.bound, **{n: ('param', i) for i, n in enumerate(names)}})
+            sub._cdepth, sub._arity, sub._stack = self._cdepth, self._arity, self._stack
             return ('lambda', len(names), sub._t(e.body))
         if isinstance(e, (ast.ListComp, ast.SetComp, ast.GeneratorExp, ast.DictComp)):
             kind = {ast.ListComp: 'listcomp', ast.SetComp: 'setcomp', ast.GeneratorExp: 'genexp', ast.DictComp: 'dictcomp'}[type(e)]
@@ -228,7 +229,7 @@ class Canon:
             gens = []
             for gi, g in enumerate(e.generators):
                 sub = Canon(self.m, self.scope, self.inline, bound)
-                sub._stack = self._stack
+                sub._stack, sub._cdepth, sub._arity = self._stack, self._cdepth + gi, self._arity
                 it = sub._t(g.iter)
                 cv = ('cvar', self._cdepth + gi, 0)
                 if isinstance(g.target, ast.Name):
@@ -324,6 +325,7 @@ class Canon:
                 try:
                     sub = Canon(self.m, Scope(helper), self.inline, {**{k: v for k, v in self.bound.items() if k not in params}, **dict(zip(params, args))})
                     sub._stack = self._stack
+                    sub._cdepth, sub._arity = self._cdepth + 8, self._arity      # comprehension variables of the helper body must not collide with those in scope at the call
                     return sub._t(body[0].value)
                 finally:
                     self._stack.pop()
@@ -357,7 +359,7 @@ class Canon:
             return ('bool', not v[1])
         if v[0] in ('and', 'or') and all(isinstance(x, tuple) and x and x[0] in ('cmp', 'not', 'and', 'or') for x in v[1]):
             # De Morgan, so that a negated conjunction of comparisons has one spelling
-            return ('or' if v[0] == 'and' else 'and', tuple(sorted((self._not(x) for x in v[1]), key=repr)))
+            return ('or' if v[0] == 'and' else 'and', tuple(sorted((self._not(x) for x in v[1]), key=_skey)))
         return ('not', v)
 
     def _cmp(self, op, l, r):
@@ -365,7 +367,7 @@ class Canon:
             op, l, r = FLIP[op], r, l
         # membership in a literal collection of constants does not depend on the kind of collection
         if op in ('in', 'notin') and r[0] in ('tuple', 'list') and all(isinstance(x, tuple) and x and x[0] in ('num', 'str') for x in r[1:]):
-            r = ('set', tuple(sorted(r[1:], key=repr)))
+            r = ('set', tuple(sorted(r[1:], key=_skey)))
         # s.find(x) >= 0 / != -1  is  x in s ;  s.find(x) < 0 / == -1  is  x not in s
         for a, b, flip in ((l, r, False), (r, l, True)):
             if b[0] == 'call' and b[1][0] == 'attr' and b[1][2] == 'find' and len(b[2]) == 1 and not b[3] and a[0] == 'num':
@@ -375,7 +377,7 @@ class Canon:
                 key = (o, a[1])
                 if key in rel and rel[key]:
                     return ('cmp', rel[key], b[2][0], b[1][1])
-        if op in ('==', '!=') and repr(l) > repr(r):
+        if op in ('==', '!=') and _skey(l) > _skey(r):
             l, r = r, l
         return ('cmp', op, l, r)
 
@@ -418,7 +420,7 @@ class Canon:
             flat.append(('num', const))
         if len(flat) == 1:
             return flat[0]
-        return ('+', tuple(sorted(flat, key=repr)))
+        return ('+', tuple(sorted(flat, key=_skey)))
 
     def _mul(self, parts):
         flat = []
@@ -445,7 +447,7 @@ class Canon:
             flat.append(('num', const))
         if len(flat) == 1:
             return flat[0]
-        return ('*', tuple(sorted(flat, key=repr)))
+        return ('*', tuple(sorted(flat, key=_skey)))
 
 
 def _subst_param(term, by):
@@ -454,6 +456,43 @@ def _subst_param(term, by):
     if isinstance(term, tuple):
         return tuple(_subst_param(x, by) for x in term)
     return term
+
+
+_CVAR_RE = None
+
+
+def _skey(t):
+    """sort key for commutative normal forms that does not depend on how comprehension variables are numbered"""
+    import re
+    global _CVAR_RE
+    if _CVAR_RE is None:
+        _CVAR_RE = re.compile(r"\('cvar', \d+, ")
+    r = repr(t)
+    return (_CVAR_RE.sub("('cvar', *, ", r), r)
+
+
+def alpha_norm(term):
+    """rename comprehension variables by order of first appearance: terms that differ only in how the variables were numbered are equal"""
+    order = {}
+
+    def scan(t):
+        if isinstance(t, tuple):
+            if len(t) == 3 and t[0] == 'cvar' and isinstance(t[1], int):
+                order.setdefault(t[1], len(order))
+                return
+            for x in t:
+                scan(x)
+    scan(term)
+    if not order or all(k == v for k, v in order.items()):
+        return term
+
+    def ren(t):
+        if isinstance(t, tuple):
+            if len(t) == 3 and t[0] == 'cvar' and isinstance(t[1], int):
+                return ('cvar', order[t[1]], t[2])
+            return tuple(ren(x) for x in t)
+        return t
+    return ren(term)
 
 
 def unkind(term):
